@@ -338,6 +338,21 @@ def run_one(ck, prog):
             ck.ob("C16.3", f"{p}|timeout-converted-once", dur_ok, fn=p, site=ctx.site(pb), detail="the caller's Duration must reach ppoll as the TimeSpec converted from it (exactly one conversion, unmodified)")
             none_ok = mentions(a[1], ctx.prov, lambda z: z[0] == "agg" and z[2] == "None")
             ck.ob("C16.3", f"{p}|none-timeout-stays-none", none_ok, fn=p, site=ctx.site(pb), detail="without a timeout ppoll must be called with no timespec (block indefinitely)")
+            # ... and a limit that was set stays a limit, whatever its value: "no timespec" is chosen only on the None side of the caller's
+            # Option (mapping Some(0) to None turns "do not wait" into "wait forever")
+            dropped = []
+            for b0 in fn["blocks"]:
+                if b0["id"] not in cfg.live_blocks() or b0.get("cleanup"):
+                    continue
+                for s0 in b0["stmts"]:
+                    if s0["k"] == "assign" and not s0["dst"].get("p") and s0["rv"]["k"] == "agg" and s0["rv"].get("variant") == "None" and \
+                            "Option<rusl::platform::compat::time::TimeSpec>" in (fn["locals"][s0["dst"]["l"]].get("ty") or "").replace(" ", ""):
+                        some_edges = [e for sb in cfg.live_blocks() if cfg.term(sb)["k"] == "switch" for e in cfg.succ[sb] for f in ctx.edge_facts(e)
+                                      if f[0] == "variant" and f[2] == "Some" and mentions(f[1], ctx.prov, lambda w: w[0] == "param" and "timeout" in str(w[2])) and not mentions(f[1], ctx.prov, lambda w: w[0] == "call")]
+                        if any(b0["id"] in cfg.reachable_from(e.dst) for e in some_edges):
+                            dropped.append(b0["id"])
+            ck.ob("C16.3", f"{p}|a-set-limit-stays-a-limit", not dropped, fn=p, site=ctx.site(dropped[0]) if dropped else ctx.site(pb),
+                  detail="with a timeout given (Some) ppoll can still be called without a timespec: a zero limit would wait forever instead of not at all")
             # EINTR re-polls and only EINTR
             errs = []
             for sb in cfg.live_blocks():
